@@ -45,7 +45,7 @@ Definition enc_ctl (c : wctl) : list Z :=
   | WRecv => [0]
   | WCall a todo => 1 :: a :: enc_todo todo
   | WRun eof todo => 2 :: b2z eof :: enc_todo todo
-  | WSleep u sel todo => 3 :: Z.of_N u :: b2z sel :: enc_todo todo
+  | WSleep u sel eof todo => 3 :: Z.of_N u :: b2z sel :: b2z eof :: enc_todo todo
   | WDone => [4]
   end.
 Definition enc_chan (ch : chan) : list Z :=
